@@ -10,6 +10,7 @@ from sa.rules import wire as W
 from sa.rules import extra as Z
 from sa.rules import round2 as R
 from sa.rules import round3 as R3
+from sa.rules import round4 as R4
 
 PROPS = {}
 
@@ -28,7 +29,7 @@ def prop(pid, rules, explanation, minimum=None, assumptions=None):
 
 prop('C01',
      [T.rule_lookup_shape, T.rule_chain, T.rule_total_ber, T.rule_pair_ber, T.rule_fragment_tag_ber, A.rule_a7_unit,
-      A.rule_a8_pairing, W.rule_encode_header, W.rule_decode_header, A.rule_c04_default, E.rule_option_latch, A.rule_a6_spec, Z.rule_encode_tag_arms, Z.rule_bits_prepend, Z.rule_option_scope, A.rule_a6_optdef, Z.rule_encode_contents, Z.rule_real_format, Z.rule_integer_octets, A.rule_c13, R.rule_real_base, R.rule_real_exponent, R3.rule_sized_length, R3.rule_segment_spec, R.rule_real_base10_exact, Z.rule_cache_key],
+      A.rule_a8_pairing, W.rule_encode_header, W.rule_decode_header, A.rule_c04_default, E.rule_option_latch, A.rule_a6_spec, Z.rule_encode_tag_arms, Z.rule_bits_prepend, Z.rule_option_scope, A.rule_a6_optdef, Z.rule_encode_contents, Z.rule_real_format, Z.rule_integer_octets, A.rule_c13, R.rule_real_base, R.rule_real_exponent, R3.rule_sized_length, R3.rule_segment_spec, R.rule_real_base10_exact, Z.rule_cache_key, R4.rule_item_option],
      'Static necessary conditions of the BER round trip: every type class has an encoder by type and a decoder by type; '
      'writer and reader of each type belong to the same codec family; string segments are tagged by the writer as the '
      'reader demands and as X.690 8.23.6 says; chunks are slices of the measured octets; end-of-octets is appended iff '
@@ -36,24 +37,24 @@ prop('C01',
      'prescribes on both sides; OPTIONAL/DEFAULT skips precede component encoding.  Content-octet arithmetic and value '
      'equality are not decided.',
      {'A1.total': 60, 'A1.pair': 80, 'A7.tag': 30, 'A1.chain': 12, 'A1.lookup': 5, 'A7.unit': 3, 'A8.pair': 20,
-      'W.enc': 8, 'W.dec': 10, 'C04.default': 4, 'W.realbase': 2, 'W.realexp': 3, 'W.sized': 6, 'W.segtag': 2, 'W.real10': 3})
+      'W.enc': 8, 'W.dec': 10, 'C04.default': 4, 'W.realbase': 2, 'W.realexp': 3, 'W.sized': 6, 'W.segtag': 2, 'W.real10': 3, 'A5.itemopt': 2})
 
 prop('C02',
      [T.rule_chain, T.rule_derived, T.rule_total_canon, T.rule_pair_canon, T.rule_modes, T.rule_keykind,
-      T.rule_fragment_tag_canon, A.rule_a7_unit, A.rule_a8_pairing, E.rule_option_latch, A.rule_c04_default, A.rule_a6_spec, Z.rule_real_normalisation, A.rule_a6_optdef, Z.rule_integer_octets, Z.rule_bits_prepend, M.rule_a9_setof, R.rule_real_exponent, R.rule_cer_real_base, R3.rule_sized_length, R3.rule_segment_spec],
+      T.rule_fragment_tag_canon, A.rule_a7_unit, A.rule_a8_pairing, E.rule_option_latch, A.rule_c04_default, A.rule_a6_spec, Z.rule_real_normalisation, A.rule_a6_optdef, Z.rule_integer_octets, Z.rule_bits_prepend, M.rule_a9_setof, R.rule_real_exponent, R.rule_cer_real_base, R3.rule_sized_length, R3.rule_segment_spec, R4.rule_item_option],
      'CER/DER tables are derived from and total w.r.t. BER, fixed encoder modes match X.690 9/10 and override caller '
      'options, codec families pair up, string segments agree between the CER writer and every reader, end-of-octets '
      'pairs with the indefinite header.  Equality of decoded values is not decided.',
-     {'A1.total': 120, 'A1.pair': 150, 'A1.modes': 8, 'A1.derived': 8, 'A7.tag': 60, 'A8.pair': 20, 'W.realexp': 3, 'A1.cerreal': 2, 'W.sized': 6, 'W.segtag': 2})
+     {'A1.total': 120, 'A1.pair': 150, 'A1.modes': 8, 'A1.derived': 8, 'A7.tag': 60, 'A8.pair': 20, 'W.realexp': 3, 'A1.cerreal': 2, 'W.sized': 6, 'W.segtag': 2, 'A5.itemopt': 2})
 
 prop('C03',
      [T.rule_x680, T.rule_modes, T.rule_canonical_sort_registered, M.rule_a9_set, M.rule_a9_setof, W.rule_encode_header,
-      A.rule_a8_pairing, A.rule_c13, E.rule_option_latch, Z.rule_encode_tag_arms, Z.rule_real_normalisation, M.rule_a9_dynamic, Z.rule_encode_contents, Z.rule_real_format, Z.rule_integer_octets, R.rule_real_exponent, R.rule_cer_real_base],
+      A.rule_a8_pairing, A.rule_c13, E.rule_option_latch, Z.rule_encode_tag_arms, Z.rule_real_normalisation, M.rule_a9_dynamic, Z.rule_encode_contents, Z.rule_real_format, Z.rule_integer_octets, R.rule_real_exponent, R.rule_cer_real_base, R4.rule_bit_segments],
      'Compared with an independent X.680/X.690 table: universal tag numbers, class/format constants, end-of-octets '
      'octets, canonical encoder modes, TRUE = FF, identifier/length octet thresholds of the encoder, SET members '
      'ordered by the outermost tag, SET OF members sorted as zero-padded octet strings, end-of-octets iff indefinite '
      'header.  Byte identity with a reference encoder is not decided.',
-     {'A1.x680': 35, 'A1.modes': 8, 'A9.reg': 4, 'A9.set': 4, 'A9.setof': 1, 'W.enc': 8, 'W.realexp': 3, 'A1.cerreal': 2})
+     {'A1.x680': 35, 'A1.modes': 8, 'A9.reg': 4, 'A9.set': 4, 'A9.setof': 1, 'W.enc': 8, 'W.realexp': 3, 'A1.cerreal': 2, 'A7.bitseg': 3})
 
 prop('C04',
      [T.rule_canonical_sort_registered, M.rule_a9_set, M.rule_a9_setof, A.rule_c04_default, A.rule_c04_clone,
@@ -66,12 +67,12 @@ prop('C04',
 
 prop('C05',
      [G.rule_slots, G.rule_prod, G.rule_retry, G.rule_cons, G.rule_last, G.rule_drop, G.rule_reads_confined,
-      G.rule_iter_total, X.rule_trunc, Z.rule_no_next, Z.rule_position_loops, Z.rule_cache_reset, R.rule_probe_order, R3.rule_eos_poll, R3.rule_ended_exactly],
+      G.rule_iter_total, X.rule_trunc, Z.rule_no_next, Z.rule_position_loops, Z.rule_cache_reset, R.rule_probe_order, R3.rule_eos_poll, R3.rule_ended_exactly, R4.rule_raw_read_none],
      'Underrun-generator protocol, logging off: every producer suspends position-neutrally and repeats its read; every '
      'consumer loop forwards underrun objects untouched and runs nothing else on them; the result is the last item and '
      'nothing follows it.  By induction on suspension points the decoder state after any arrival schedule equals that of '
      'the one-shot run.  tell()-difference arithmetic is not decided.',
-     {'A2.cons': 50, 'A2.prod': 70, 'A2.retry': 4, 'A2.last': 50, 'A2.slot': 3, 'A2.drop': 12, 'A2.reads': 5, 'A2.probe': 1, 'A2.eosloop': 1, 'A2.ended': 1})
+     {'A2.cons': 50, 'A2.prod': 70, 'A2.retry': 4, 'A2.last': 50, 'A2.slot': 3, 'A2.drop': 12, 'A2.reads': 5, 'A2.probe': 1, 'A2.eosloop': 1, 'A2.ended': 1, 'A12.none': 5})
 
 prop('C06',
      [X.rule_hier, X.rule_trunc, G.rule_oneshot, G.rule_retry, G.rule_reads_confined, G.rule_cons, G.rule_iter_total, Z.rule_no_next, R.rule_handler_mask, R.rule_probe_order, R3.rule_eos_poll, R3.rule_ended_exactly],
@@ -109,11 +110,11 @@ prop('C10', [A.rule_c10, A.rule_a6_spec, X.rule_nonevalue, A.rule_c14, Z.rule_ch
      'before the value is returned; result is an ASN.1 object built from the guiding type.  The re-encode fixpoint is not decided.',
      {'C10.req': 2, 'C10.cons': 6, 'A13.value': 20})
 
-prop('C11', [M.rule_a12, G.rule_reads_confined, Z.rule_cache_reset, R.rule_eos_by_read, R3.rule_eos_poll, G.rule_retry],
+prop('C11', [M.rule_a12, G.rule_reads_confined, Z.rule_cache_reset, R.rule_eos_by_read, R3.rule_eos_poll, G.rule_retry, R4.rule_raw_read_none],
      'Substrate kinds are told apart only in codec/streaming.py (total dispatch, library error otherwise); the caching '
      'wrapper keeps tell()/seek() coordinates stable while the decoder holds positions; reads go through the wrapper.  '
      'Byte-for-byte refinement of the wrapper over all operation histories is not decided.',
-     {'A12.kinds': 4, 'A12.total': 6, 'A12.origin': 1, 'A12.cache': 3, 'A12.eos': 2, 'A2.eosloop': 1})
+     {'A12.kinds': 4, 'A12.total': 6, 'A12.origin': 1, 'A12.cache': 3, 'A12.eos': 2, 'A2.eosloop': 1, 'A12.none': 5})
 
 prop('C12',
      [E.rule_value_pure, E.rule_spec_pure, E.rule_census, E.rule_stateless, E.rule_log_blocks, E.rule_defaults,
